@@ -350,6 +350,8 @@ ENUM_SPECS = {
         # token level: whole matched isolates as single letters of the alphabet (sequences of several level runs)
         "E 5 01 627,61,5d0,31,24,2066+61+2069,2066+5d0+2069,2066+31+2069,2066+2069",
         "E 7 01 61,5d0,2066+61+2069,28,29",
+        "E 6 01 61,5d0,21,ad,24,31",                # L R ON BN ET EN : removed characters inside weak / neutral runs (round 4, A1)
+        "E 7 0 61,28,29,202b,202e,202c",            # L ( ) RLE RLO PDF : brackets across embedding / override boundaries (round 4, A3)
     ],
     "thorough": [
         "E 8 01 5d0,61,28,29,2067,2069",
@@ -359,6 +361,9 @@ ENUM_SPECS = {
         "E 7 0 61,5d0,202b,202d,202c,2066,2069,21", # L R RLE LRO PDF LRI PDI ON : X1-X8 with X9 removal
         "E 6 01 627,61,5d0,31,24,2066+61+2069,2066+5d0+2069,2066+31+2069,2066+2069,2067+61+2069",
         "E 8 01 61,5d0,2066+61+2069,2067+5d0+2069,28,29",
+        "E 7 01 61,5d0,21,ad,24,31",
+        "E 6 01 627,61,20,202c,24,31,661",          # AL L WS PDF ET EN AN
+        "E 7 0 61,5d0,28,29,202b,202e,202c",        # L R ( ) RLE RLO PDF
     ],
 }
 
